@@ -33,7 +33,7 @@ PI = np.pi
 RTOL = 1e-8
 KF1_BAND = 3e-5          # MatrixLog3 is inaccurate within this distance of pi (known finding KF1) - keep out
 SEED_MARGIN = 1e-3       # the seed-generic frame is drawn until every relative rotation is at least this far from pi
-PARTS = ["frames", "pairing", "point", "sums", "arith"]
+PARTS = ["frames", "pairing", "point", "sums", "arith", "shared"]
 
 # ---------------------------------------------------------------------------------------------- palettes
 
@@ -269,6 +269,45 @@ def case_frames(L, c, res):
     res.check("explicit_old_frame", None if w2 is None else L.data(w2), eB, s1, "A named explicitly")
     if c["A"] != c["B"] and w2 is not None:
         res.frame(L, "explicit_old_frame", w2.frame_applied, TB, "recorded frame")
+
+
+def case_shared(L, c, res):
+    """Histories on SHARED, MUTABLE frame objects: two objects carry the same frame object A; the first is changed to the
+    frame OBJECT fB; fB is then moved in place to the pose C (by one of the transform's writers); the second object is
+    changed to fB.  It must arrive in C.  Then fA itself is moved in place and a third object built on it is changed to
+    fB.  (A frame transition remembered per pair of frame OBJECTS is only wrong here.)"""
+    cls, v = c["cls"], np.array(c["v"], float)
+    u = np.array(GEN2, float)
+    TA, TB, TC = (se3.T_from_taa(c[k]) for k in "ABC")
+    act = wr.CHANGE[cls]
+    fA, fB = L.frame(c["A"]), L.frame(c["B"])
+    mkobj = {"Wrench": lambda d: L.call("Wrench(data, None, frame)", L.Wrench, np.array(d, float), None, fA),
+             "Screw": lambda d: L.call("Screw(data, frame)", L.Screw, np.array(d, float), fA)}[cls]
+    x1, x2 = mkobj(v), mkobj(u)
+    L.call("changeFrame(B)", x1.changeFrame, fB)
+    s1 = float(np.linalg.norm(v)) * (1 + _pn(TA) + _pn(TB))
+    res.check("shared_first", L.data(x1), act(TA, TB, v), s1, "A->B")
+    how = c["how"]
+    if how == "sTAA":
+        L.call("frame.sTAA", fB.sTAA, np.array(c["C"], float).reshape(6, 1))
+    elif how == "sTM":
+        L.call("frame.sTM", fB.sTM, TC.copy())
+    else:
+        L.call("frame[0:3]=", fB.__setitem__, slice(0, 3), list(c["C"][:3]))
+        L.call("frame[3:6]=", fB.__setitem__, slice(3, 6), list(c["C"][3:]))
+    L.call("changeFrame(B moved to C)", x2.changeFrame, fB)
+    s2 = float(np.linalg.norm(u)) * (1 + _pn(TA) + _pn(TC))
+    res.check("frame_object_moved_in_place", L.data(x2), act(TA, TC, u), s2, "A->(B moved to C), frame object re-used")
+    res.frame(L, "frame_recorded", x2.frame_applied, TC, "after changeFrame to the moved frame object")
+    # now the source frame object moves (to B's old pose) and a new object on it goes to the frame object at C
+    x3 = mkobj(v)
+    L.call("frame.sTAA", fA.sTAA, np.array(c["B"], float).reshape(6, 1))
+    if x3.frame_applied is fA:          # the object keeps the caller's frame object: it now lives in the moved frame
+        L.call("changeFrame(C)", x3.changeFrame, fB)
+        res.check("frame_object_moved_in_place", L.data(x3), act(TB, TC, v), float(np.linalg.norm(v)) * (1 + _pn(TB) + _pn(TC)),
+                  "(A moved to B)->C, source frame object re-used")
+    else:
+        res.count("constructor_copies_frame")
 
 
 def case_pairing(L, c, res):
@@ -541,7 +580,8 @@ def case_arith(L, c, res):
             res.check("law_mul_div", L.vec6(r), a6, sm, "o/(o/a) = a", alt=alt66(r, bc))
 
 
-CASEFN = {"frames": case_frames, "pairing": case_pairing, "point": case_point, "sums": case_sums, "arith": case_arith}
+CASEFN = {"frames": case_frames, "pairing": case_pairing, "point": case_point, "sums": case_sums, "arith": case_arith,
+          "shared": case_shared}
 
 
 def run_case(L, c):
@@ -614,6 +654,17 @@ def cases(part, tier, seed):
                         out.append(dict(base, form=form, val=val, names=[fr[ia][0], None, fr[ic][0]]))
                     for ib in range(n):
                         out.append(dict(base, form="obj", val=GEN2, B=fr[ib][1], names=[fr[ia][0], fr[ib][0], fr[ic][0]]))
+    elif part == "shared":
+        hows = ("sTAA", "sTM", "slices")
+        for ia in range(n):
+            for ib in range(n):
+                for ic in range(n):
+                    if ib == ic:
+                        continue
+                    for cls in ("Screw", "Wrench"):
+                        out.append({"part": part, "cls": cls, "v": vs[(ia + ib + ic) % len(vs)], "A": fr[ia][1], "B": fr[ib][1],
+                                    "C": fr[ic][1], "how": hows[(ia + 2 * ib + ic) % 3], "names": [fr[ia][0], fr[ib][0], fr[ic][0]],
+                                    "trivial": False})
     else:
         raise ValueError(part)
     _CASES[k] = out
@@ -658,7 +709,8 @@ def run(ctx):
     lattice.fill(ctx, parts,
                  "complete products: frames^3 x vectors x {Screw,Wrench} (frame change, pairing, sums), "
                  "frames^3 x forces x 3 constructors (force at a point), {Screw,Wrench} x frames x vectors x "
-                 "(7 scalar forms + 4 array forms + an object in every frame) x every operator and its reflection; "
+                 "(7 scalar forms + 4 array forms + an object in every frame) x every operator and its reflection; shared-frame-object "
+                 "histories over frames^3 (two objects on one frame object, target frame object moved in place between the changes); "
                  "every case distinct by construction, non-trivial = not all three frames equal; "
                  "`evaluations` counts individual comparisons, `distinct_nontrivial` counts cases",
                  {"frames": [f[0] for f in fr], "seed_frame": fr[-1][1], "vectors": len(vectors(ctx.tier)),
